@@ -94,6 +94,8 @@ def run_impl(case):
   rng = random.Random(case['seed'])
   res['aggr'] = []
   pool = res['elig_geos'] + ([res['geos_in_data'][0]] if res['geos_in_data'] else [])
+  own = []          # in every other case the caller keeps ONE list, edits it in place and assigns it again
+  res['own_list'] = case['seed'] % 2 == 1
   for _ in range(4):
     if not pool:
       break
@@ -101,7 +103,11 @@ def run_impl(case):
     gi = list(dict.fromkeys(gi))
     idx = sorted(rng.sample(range(len(gi)), rng.randint(1, len(gi))))
     try:
-      data.geo_index = [str(g) for g in gi]
+      if res['own_list']:
+        own[:] = [str(g) for g in gi]
+        data.geo_index = own
+      else:
+        data.geo_index = [str(g) for g in gi]
       s0 = [float(v) for v in data.aggregate_time_series(set(idx))]
       if other is not None:
         try:
@@ -275,7 +281,7 @@ def run(tier):
   ck.cov['rule'] = ('long frames of 1-7 geos x 3-12 dates with ~12% missing cells, duplicate (geo, date) rows (1, 2 or 4 copies), an '
                     'exact tie in the mean in 8% of the frames, shuffled rows, integer or string IDs, an extra column; eligibility '
                     'table absent / equal to / subset of / superset of the data (superset with excludable or with required geos); '
-                    'four random geo indices (possibly with unassignable geos) x random position sets. non-trivial: >= 2 geos')
+                    'four random geo indices (possibly with unassignable geos; in every other case one caller-owned list edited in place and assigned again) x random position sets. non-trivial: >= 2 geos')
   ck.cov['distribution'] = dist
   ck.cov['correspondence'] = {'frames_model_vs_impl': len(terms), 'disagreements': len(bad)}
   return ck.finish('proof', TRUSTED)
